@@ -46,11 +46,10 @@ MoreGeneral(sg) ==
 CallOK == /\ Verdict = "unif"
           /\ \A v \in U!ProbVars(prob) : (v[1] = "ev" /\ v[3] = "c") => ~U!NonCopy(U!Resolve(sub, v))
 
-Kind ==
+Kind0 ==
     LET o == prob.obs IN
     IF ~U!AgreeClosure THEN "spec-disagree"
     ELSE IF Verdict = "amb" THEN "skip"
-    ELSE IF o[1] # "exc" /\ prob.calls > 4 * steps + 8 THEN "step-budget"
     ELSE CASE o[1] = "none"   -> IF Verdict = "none" THEN "ok" ELSE "missed-unifier"
            [] o[1] = "exc"    -> IF o[2] = "RecursionError" THEN "nontermination" ELSE "exception"
            [] o[1] = "subst"  ->
@@ -63,6 +62,14 @@ Kind ==
            [] o[1] = "accept" -> IF CallOK THEN "ok" ELSE "accepted-without-instantiation"
            [] o[1] = "reject" -> IF ~CallOK THEN "ok" ELSE "rejected-despite-instantiation"
            [] OTHER -> "bad-observation"
+
+\* an otherwise conforming call must also stay within a call budget relative to the
+\* specification's own number of steps (termination with a bound, not just eventually)
+\* (where the specification fails early the code may legitimately look at other arguments first:
+\*  there the bound is quadratic in the number of distinct subterms of the problem)
+Budget == IF status = "unif" THEN 4 * steps + 8
+          ELSE LET n == Cardinality(U!ProbNodes(prob)) IN 8 * n * n + 16
+Kind == IF Kind0 = "ok" /\ prob.calls > Budget THEN "step-budget" ELSE Kind0
 
 Report == U!Done => PrintT(ToJson([id |-> prob.id, kind |-> Kind, verdict |-> Verdict, why |-> U!Why,
                                    mgu |-> IF status = "unif" THEN U!SubstToSet(sub) ELSE {},
